@@ -154,6 +154,11 @@ pub struct Alph {
     pub regulate: bool,
     /// C11: fire every packet kind at send() from every reachable state
     pub send_probes: bool,
+    /// refusal probe: the application may also use an alias it never registered on this connection
+    /// (empty topic + unbound alias must be refused and release the identifier)
+    pub use_unbound: bool,
+    /// the peer may pipeline a CONNECT / CONNACK right behind its DISCONNECT (same read buffer)
+    pub after_disconnect: bool,
 }
 
 #[derive(Clone, Debug)]
@@ -373,6 +378,9 @@ pub struct Mdl {
     pub connack_owed: bool,
     /// manual mode: PUBREL owed by the application (PUBREC received, reply deferred)
     pub owed_rel: BTreeSet<u32>,
+    /// the peer's DISCONNECT was delivered on this transport (the application closes next, but frames
+    /// that follow it in the same read buffer can still reach recv())
+    pub peer_disc: bool,
 }
 
 impl Mdl {
@@ -402,6 +410,7 @@ impl Mdl {
             partial_pending: false,
             connack_owed: false,
             owed_rel: BTreeSet::new(),
+            peer_disc: false,
         }
     }
     pub fn new_session(&mut self) {
@@ -855,7 +864,20 @@ impl<P: Pid> World for Ep<P> {
         let mut v = vec![];
         if m.close_pending {
             // the contract: after a close request (or a broken transport) the next call is notify_closed()
-            return vec![Act::Closed];
+            let mut v = vec![Act::Closed];
+            // ... except that frames following the peer's DISCONNECT in the same read buffer are still fed
+            if al.after_disconnect && m.peer_disc && m.link_up && m.ver.is_some() {
+                if m.as_client {
+                    for i in 0..c.connacks.len() {
+                        v.push(Act::PConnack(i as u8));
+                    }
+                } else {
+                    for i in 0..c.connects.len() {
+                        v.push(Act::PConnect(i as u8));
+                    }
+                }
+            }
+            return v;
         }
         let version_known = m.ver.is_some();
         // ---- local calls
@@ -868,9 +890,17 @@ impl<P: Pid> World for Ep<P> {
             for i in 0..c.connacks.len() {
                 v.push(Act::Connack(i as u8));
             }
-            // the server application answers CONNECT before anything else
+            // the server application answers CONNECT before anything else of its own; an armed timer
+            // may still expire first
             if al.spontaneous_close {
                 v.push(Act::Closed);
+            }
+            if al.timers && m.timer_fires < c.max_timer_fires {
+                for k in Tk::ALL {
+                    if m.armed[k.idx()] {
+                        v.push(Act::Timer(k));
+                    }
+                }
             }
             return v;
         }
@@ -884,7 +914,7 @@ impl<P: Pid> World for Ep<P> {
                             let ok = match a {
                                 Al::No => true,
                                 Al::Reg(_) => self.v5() && m.st == St::Connected,
-                                Al::Use(x) => self.v5() && m.st == St::Connected && !c.auto_map && m.app_alias.get(&x) == Some(&(t as u8)),
+                                Al::Use(x) => self.v5() && m.st == St::Connected && !c.auto_map && (m.app_alias.get(&x) == Some(&(t as u8)) || (al.use_unbound && t == 0 && !m.app_alias.contains_key(&x))),
                             };
                             if ok {
                                 v.push(Act::Pub { q, t: t as u8, al: a, fail: false });
@@ -938,9 +968,15 @@ impl<P: Pid> World for Ep<P> {
             }
         }
         if al.erase {
+            // erase_stored_publish(id) for every stored entry: a stored PUBLISH is erased and its
+            // identifier released; for a stored PUBREL (the exchange is past PUBREC) and for an
+            // exchange whose PUBREL is still owed the call must change nothing
             for e in &m.store {
-                if e.kind != 3 {
-                    v.push(Act::Erase(e.id));
+                v.push(Act::Erase(e.id));
+            }
+            for id in &m.owed_rel {
+                if !m.store.iter().any(|e| e.id == *id) {
+                    v.push(Act::Erase(*id));
                 }
             }
         }
